@@ -139,6 +139,17 @@ macro_rules! define_iface {
         }
     };
 }
+/// A second interface at the same path with one readable property: `Properties.GetAll` on it runs exactly one
+/// getter (call kind "getall"; at most one such call per scenario, its index is kept in GA_K).
+pub struct Ga;
+static GA_K: std::sync::atomic::AtomicU32 = std::sync::atomic::AtomicU32::new(0);
+#[interface(name = "org.verif.GA")]
+impl Ga {
+    #[zbus(property(emits_changed_signal = "false"))]
+    async fn q(&self, #[zbus(object_server)] s: &ObjectServer, #[zbus(connection)] c: &Connection) -> u32 {
+        body(GA_K.load(std::sync::atomic::Ordering::SeqCst), s, c).await
+    }
+}
 define_iface!(Seq, name = "org.verif.Seq", spawn = false);
 define_iface!(Par, name = "org.verif.Par");
 
@@ -197,6 +208,10 @@ fn start_call(client: &Connection, spawn: bool, k: u32, c: &CallCfg) -> Job<bool
                 conn.call_method(None::<()>, "/d", Some("org.freedesktop.DBus.Properties"), "Set",
                                  &(iface, prop.as_str(), Value::from(k))).await
             }
+            "getall" => {
+                GA_K.store(k, std::sync::atomic::Ordering::SeqCst);
+                conn.call_method(None::<()>, "/d", Some("org.freedesktop.DBus.Properties"), "GetAll", &("org.verif.GA",)).await
+            }
             _ => conn.call_method(None::<()>, "/d", Some("org.freedesktop.DBus.Introspectable"), "Introspect", &()).await,
         };
         r.is_ok()
@@ -226,12 +241,17 @@ pub fn run(sc: &Scenario) -> J {
     }
     let s = pair.server.clone();
     let spawn = sc.spawn;
+    let with_ga = sc.calls.iter().any(|c| c.kind == "getall");
     let mut reg = Job::new(async move {
-        if spawn {
+        let r = if spawn {
             s.object_server().at("/d", Par).await
         } else {
             s.object_server().at("/d", Seq).await
+        };
+        if with_ga {
+            s.object_server().at("/d", Ga).await?;
         }
+        r
     });
     reg.poll();
     // `at` may need the server's executor to run before it returns (it may wait for the object server's
@@ -531,7 +551,10 @@ pub fn random(class: &str, n: u64, seed: u64, out: &str) {
             "mutate" => {
                 let nc = 1 + rng.below(4);
                 for _ in 0..nc {
-                    let kind = ["meth", "methmut", "get", "set", "intro"][rng.below(5) as usize];
+                    let mut kind = ["meth", "methmut", "get", "set", "intro", "getall"][rng.below(6) as usize];
+                    if kind == "getall" && calls.iter().any(|c: &CallCfg| c.kind == "getall") {
+                        kind = "get";
+                    }
                     let mut body = vec![];
                     if kind != "intro" {
                         for _ in 0..(1 + rng.below(3)) {
